@@ -1,4 +1,5 @@
 import NibabelModel.Model.C18
+import NibabelModel.Generated.C18Funcs
 import Driver.Util
 /-! Line-protocol driver for C18: `C18 <kind> <axis fields...> <op> <args...>` -> one observable line.
 
@@ -204,7 +205,86 @@ def showAnyAx : AnyAx → String
   | .ser a => s!"S{a.start}.{a.step}.{a.size}.{a.unit}"
   | .sc a => s!"C{joinOr "," (a.name.map toString)}/{joinOr "," (a.mta.map toString)}"
 
+/-! ### wave-3 extension: explicit metadata dicts through the XML text -/
+
+/-- text `core.padL.padR`; normal form: the empty text (core 0) carries its whitespace in `padL` only -/
+def parseTxt? (s : String) : Option Txt :=
+  match (s.splitOn ".").mapM (·.toNat?) with
+  | some [c, l, r] => if c = 0 ∧ r ≠ 0 then none else some ⟨c, l, r⟩
+  | _ => none
+
+def parseMD? (s : String) : Option MD :=
+  match s.splitOn "=" with
+  | [k, v] => match parseTxt? k, parseTxt? v with
+    | some k, some v => some (k, v)
+    | _, _ => none
+  | _ => none
+
+/-- dict `e;e;…` (`_` = empty dict); keys must be distinct (it is a dict) -/
+def parseMDict? (s : String) : Option MDict :=
+  if s = "_" then some [] else
+  match parseSep? ";" parseMD? s with
+  | some d => if (d.map (·.1)).eraseDups.length = d.length then some d else none
+  | none => none
+
+def showTxt (t : Txt) : String := s!"{t.core}.{t.padL}.{t.padR}"
+/-- entries sorted as strings: Python compares dicts without regard to entry order -/
+def showMDict (d : MDict) : String :=
+  "[" ++ ",".intercalate ((d.map (fun e => showTxt e.1 ++ "=" ++ showTxt e.2)).mergeSort (fun a b => !(decide (b < a)))) ++ "]"
+def showScalarM (a : ScalarM) : String :=
+  s!"ax {a.name.length} " ++ joinOr ";" ((a.name.zip a.mta).map (fun e => s!"{e.1}:" ++ showMDict e.2))
+
+/-! ### wave-3 extension: the SeriesAxis methods TRANSLATED from the source (`Generated/C18Funcs.lean`) -/
+
+open Nb.Py in
+def indexToV : Index → V
+  | .int i => .int i
+  | .slice s => V.ofPySlice s
+  | .arr l => V.ofList (l.map V.int)
+  | .mask m => V.ofList (m.map V.bool)
+
+open Nb.Py in
+def showPyErr : Nb.Py.Err → String
+  | .indexError => "ERR:IndexError"
+  | .valueError => "ERR:ValueError"
+  | .typeError => "ERR:TypeError"
+  | .zeroDivision => "ERR:ZeroDivisionError"
+  | .unsupported => "ERR:unsupported"
+
+open Nb.Py in
+/-- a translated result: a time point, or an axis given by its four constructor arguments -/
+def showGenResult : Nb.Py.M V → String
+  | .error e => showPyErr e
+  | .ok (.int t) => s!"el {t}"
+  | .ok (.cons (.int a) (.cons (.int b) (.cons (.int c) (.cons (.int d) .nil)))) =>
+    if c < 0 ∨ d < 0 then "bad-result" else showSeries ⟨a, b, c.toNat, d.toNat⟩
+  | .ok _ => "bad-result"
+
+open Nb.Py in
+def seriesArgs (a : Series) : V × V × V × V := (.int a.start, .int a.step, .int (a.size : Int), .int (a.unit : Int))
+
 def handleExt : List String → Option String
+  | ["gen", "ser", a, b, c, d, "idx", i] =>
+    match parseSeries? [a, b, c, d], parseIndex? i with
+    | some ax, some idx =>
+      let (p, q, r, u) := seriesArgs ax
+      some (showGenResult (Nb.Gen.C18F.getitemW p q r u (indexToV idx)))
+    | _, _ => some "bad-op"
+  | ["gen", "ser", a, b, c, d, "add", a2, b2, c2, d2] =>
+    match parseSeries? [a, b, c, d], parseSeries? [a2, b2, c2, d2] with
+    | some x, some y =>
+      let (p, q, r, u) := seriesArgs x
+      let (p2, q2, r2, u2) := seriesArgs y
+      some (showGenResult (Nb.Gen.C18F.addW p q r u p2 q2 r2 u2))
+    | _, _ => some "bad-op"
+  | ["scm", n, m, "xrt"] =>
+    match parseNatList? n, parseSep? "|" parseMDict? m with
+    | some n, some m => some (out showScalarM (scalarMMk n m >>= scalarMXrt))
+    | _, _ => some "bad-op"
+  | ["fm", d, "xrt"] =>
+    match parseMDict? d with
+    | some d => some (showMDict (mdXrt d))
+    | none => some "bad-op"
   | ["ser", a, b, c, d, "map"] =>
     match parseSeries? [a, b, c, d] with
     | some ax => some (showSeries (seriesFromMapping (seriesToMapping ax)) ++ s!" exp={(seriesToMapping ax).exponent}")
